@@ -1,3 +1,86 @@
-/-! Model for property C05 (core Lean only; no Mathlib). -/
+/-! Model for property C05: the schedule of local updates of the three TDVP variants with their
+signed durations (core Lean only).
+
+Input of the model: the *segments* of the sweep.  For an update path `u₀ … u_{m-1}` (C17) and
+`hᵢ` = the first node after `uᵢ` on the tree path from `uᵢ` to `uᵢ₊₁`
+(`orthogonalization_path[i][0]`), `segs = [(u₀,h₀), …, (u_{m-2},h_{m-2})]` and `last = u_{m-1}`.
+
+Durations are integers in units of `dt/2` ("half steps"), so `2` is `+dt`, `-1` is `-dt/2`.
+
+* `first`   ↔ `FirstOrderOneSiteTDVP.run_one_time_step`
+* `second`  ↔ `SecondOrderOneSiteTDVP.run_one_time_step` (forward sweep, final forward update,
+               backward sweep)
+* `twoSite` ↔ `SecondOrderTwoSiteTDVP.run_one_time_step`
+Only the calls of the local propagator are recorded (centre moves and cache refreshes are not
+events).  The backward sweeps use that the tree path from `uᵢ₊₁` back to `uᵢ` ends `…, hᵢ, uᵢ`
+(paths in a tree are unique and symmetric — C17). -/
 namespace Ptn.C05
+
+inductive Ev where
+  | site (v : Nat) (d : Int)          -- single-site update of node v
+  | link (a b : Nat) (d : Int)        -- link (bond) update between a (old centre) and b
+  | two (a b : Nat) (d : Int)         -- two-site update of a (old centre) and b
+deriving Repr, DecidableEq
+
+abbrev Seg := Nat × Nat
+
+/-- First-order one-site sweep: site `+dt` then link `-dt` for every segment, final site `+dt`. -/
+def first (segs : List Seg) (last : Nat) : List Ev :=
+  segs.flatMap (fun s => [Ev.site s.1 2, Ev.link s.1 s.2 (-2)]) ++ [Ev.site last 2]
+
+/-- Second-order one-site: forward half steps, full step on the last node, mirrored backward
+    half steps.  Undefined (`none`) for a single node: the code indexes
+    `backwards_update_path[1]`. -/
+def second (segs : List Seg) (last : Nat) : Option (List Ev) :=
+  match segs.reverse with
+  | [] => none
+  | s :: rest =>
+    some (segs.flatMap (fun s => [Ev.site s.1 1, Ev.link s.1 s.2 (-1)])
+      ++ [Ev.site last 2]
+      ++ [Ev.link last s.1 (-1), Ev.site s.1 1]
+      ++ rest.flatMap (fun t => [Ev.link t.2 t.1 (-1), Ev.site t.1 1]))
+
+/-- Second-order two-site: forward `two +dt/2` on every segment followed by a single-site
+    backward half step on the *next* node (not after the last pair), mirrored on the way back. -/
+def twoSite (segs : List Seg) (last : Nat) : Option (List Ev) :=
+  match segs.reverse with
+  | [] => none
+  | s :: rinit =>
+    some (rinit.reverse.flatMap (fun t => [Ev.two t.1 t.2 1, Ev.site t.2 (-1)])
+      ++ [Ev.two s.1 last 1]
+      ++ [Ev.two last s.1 1]
+      ++ rinit.flatMap (fun t => [Ev.site t.2 (-1), Ev.two t.2 t.1 1]))
+
+/-! Totals -/
+
+def sameEdge (a b x y : Nat) : Bool := (a == x && b == y) || (a == y && b == x)
+
+def Ev.dur : Ev → Int
+  | .site _ d => d
+  | .link _ _ d => d
+  | .two _ _ d => d
+
+def siteTotal (v : Nat) (tr : List Ev) : Int :=
+  (tr.map fun e => match e with | .site w d => if w = v then d else 0 | _ => 0).sum
+
+def linkTotal (a b : Nat) (tr : List Ev) : Int :=
+  (tr.map fun e => match e with | .link x y d => if sameEdge a b x y then d else 0 | _ => 0).sum
+
+def twoTotal (a b : Nat) (tr : List Ev) : Int :=
+  (tr.map fun e => match e with | .two x y d => if sameEdge a b x y then d else 0 | _ => 0).sum
+
+def durTotal (tr : List Ev) : Int := (tr.map Ev.dur).sum
+
+/-- Number of segments that are the (unordered) edge `{a,b}`. -/
+def edgeCount (a b : Nat) (segs : List Seg) : Int :=
+  (segs.map fun s => if sameEdge a b s.1 s.2 then (1 : Int) else 0).sum
+
+/-- Number of segments (except the last one) whose second component is `v`. -/
+def hopCount (v : Nat) (segs : List Seg) : Int :=
+  (segs.map fun s => if s.2 = v then (1 : Int) else 0).sum
+
+/-- Degree of `v` in the edge list. -/
+def degree (v : Nat) (segs : List Seg) : Int :=
+  (segs.map fun s => (if s.1 = v then (1 : Int) else 0) + (if s.2 = v then 1 else 0)).sum
+
 end Ptn.C05
